@@ -3,8 +3,10 @@ import Blue.Proofs.SpecBounds
     captured.  Under the state lock the scan takes `Arc`s to the memtable and to the immutable
     memtable, a reference to the current version, and the timestamp.  The captured memtable is
     still the store's *mutable* memtable: later writes are inserted into it (until it is rotated)
-    and the cursor's skiplist iterator walks over them.  The immutable memtable and the files of
-    the captured version never change.  The cursor stack (`Bounds(Pruning(Merging[…]))`) is taken by
+    and the cursor's skiplist iterator walks over them.  The captured *immutable* memtable can
+    still grow too: a writer that picked it before the rotation keeps inserting into it until the
+    flush thread has passed the wait list (`Blue.KvsConc`: `wIns` after `fRotate`, before `fHead`)
+    — token `writeImm`.  The files of the captured version never change.  The cursor stack (`Bounds(Pruning(Merging[…]))`) is taken by
     its specification (`scan_spec`, C03): at every call it shows the reference cursor over the
     versions of the captured components that are live at the captured timestamp and in range. -/
 namespace Blue.Snap
@@ -22,11 +24,13 @@ def sortV (klt : K → K → Bool) (vs : List (Ver K)) : List (Ver K) :=
 
 /-- what a scan captured, and where its cursor stands -/
 structure Held (K : Type) where
-  /-- the read timestamp: the last sequence number assigned when the scan was opened -/
+  /-- the read timestamp the scan captured (as found: the last sequence number assigned when the
+      scan was opened; repaired: `visible_seq_no`) -/
   ts : Nat
   /-- entries of the captured memtable object, as of now -/
   mem : List (Ver K)
-  /-- entries of the captured immutable memtable and of the files of the captured version -/
+  /-- entries of the captured immutable memtable (as of now) and of the files of the captured
+      version -/
   rest : List (Ver K)
   /-- position of the reference cursor (0 = before the first, n+1 = after the last) -/
   pos : Nat
@@ -36,6 +40,10 @@ inductive Tok (K : Type) where
   | op (o : Op (Ver K))
   /-- a write that inserted these entries into the captured memtable after the scan was opened -/
   | write (es : List (Ver K))
+  /-- a write that had picked the captured IMMUTABLE memtable before it was rotated away and
+      inserted these entries into it after the scan was opened (possible until the flush thread
+      has passed the wait list) -/
+  | writeImm (es : List (Ver K))
   /-- anything else the store does meanwhile: a write into a newer memtable, rollover, flush,
       version install (compaction, trivial move, garbage collection), trash clean-up -/
   | other
@@ -51,6 +59,7 @@ def step (klt : K → K → Bool) (tomb : Ver K → Bool) (sb eb : Bound K) (h :
     let r := (Ref.mk (view klt tomb sb eb h) h.pos).step o
     ({ h with pos := r.pos }, some r.kv)
   | .write es => ({ h with mem := h.mem ++ es }, none)
+  | .writeImm es => ({ h with rest := h.rest ++ es }, none)
   | .other => (h, none)
 
 /-- the entry shown after each call of the script -/
@@ -61,9 +70,11 @@ def run (klt : K → K → Bool) (tomb : Ver K → Bool) (sb eb : Bound K) : Hel
     | (h', some o) => o :: run klt tomb sb eb h' ts
     | (h', none) => run klt tomb sb eb h' ts
 
-/-- the read timestamp the store hands a scan (`visible_seq_no`): the number of the last write
-    that has left the wait list.  Writes leave in sequence order, so it lies just below the oldest
-    write still in flight; with none in flight it is the last assigned number. -/
+/-- the read timestamp of this model's overlapping scan: the number just below the oldest write
+    still in flight (writes leave the wait list in sequence order); with none in flight the last
+    assigned number.  The store's `visible_seq_no` (number of the last write that has left the
+    wait list) is NOT always this number — a memtable rotation consumes a sequence number that no
+    write carries — but selects the same entries (`Blue.KvsConc.view_visible_eq_view_readTs`). -/
 def readTs (assigned : Nat) : List Nat → Nat
   | [] => assigned
   | s :: rest => let t := readTs assigned rest; if s ≤ t then s - 1 else t
